@@ -575,6 +575,7 @@ func (g *fnGen) load(st *state, a *addr, instr ssa.Instruction) string {
 		if a.prov != nil {
 			g.guardObligation(st, a.prov, false, instr)
 		}
+		g.accessGuardObligations(st, a, false, instr)
 		if _, isStruct := a.typ.Underlying().(*types.Struct); isStruct {
 			return g.loadAt(st, a.typ, a.ptr)
 		}
@@ -625,6 +626,7 @@ func (g *fnGen) store(st *state, a *addr, val string, instr ssa.Instruction) {
 			g.guardObligation(st, a.prov, true, instr)
 		}
 		g.frameObligation(st, "field", a.ref, g.fieldArrayName(a.structT, a.field), instr)
+		g.accessGuardObligations(st, a, true, instr)
 		if g.ct != nil && g.ct.Flags["checks-writeguards"] {
 			g.writeGuardObligations(st, a, instr)
 		}
@@ -1861,6 +1863,34 @@ func recoverOnlyClosure(fn *ssa.Function) bool {
 		}
 	}
 	return true
+}
+
+func (g *fnGen) accessGuardObligations(st *state, a *addr, write bool, instr ssa.Instruction) {
+	if len(g.P.cs.AccessGuards) == 0 || g.ct == nil || g.ct.Synth {
+		return
+	}
+	n, ok := a.structT.(*types.Named)
+	if !ok || n.Obj().Pkg() == nil {
+		return
+	}
+	for _, ag := range g.P.cs.AccessGuards {
+		if ag.PkgPath != n.Obj().Pkg().Path() || ag.Struct != n.Obj().Name() || ag.Field != a.field.Name() {
+			continue
+		}
+		e, kind, what := ag.Read, "guard-read", "read of "
+		if write {
+			e, kind, what = ag.Write, "guard-write", "write of "
+		}
+		if e == nil {
+			continue
+		}
+		t, err := g.evalBool(e, &evalEnv{g: g, cur: st, old: g.entry, mode: "hook", names: map[string]binding{"self": {a.ref, types.NewPointer(a.structT)}}})
+		if err != nil {
+			g.stale = append(g.stale, fmt.Sprintf("accessguard %s.%s: %v", ag.Struct, ag.Field, err))
+			continue
+		}
+		g.oblige(st, kind, ag.Struct+"."+ag.Field+" @ "+g.anchor(instr.Pos(), "access"), instr.Pos(), "", t, what+ag.Struct+"."+ag.Field+" is allowed only when: "+ag.Src)
+	}
 }
 
 func (g *fnGen) writeGuardObligations(st *state, a *addr, instr ssa.Instruction) {
